@@ -237,6 +237,9 @@ class BoundedStream:
                 'This stream is closed; no further operations on it are permitted.'
             )
 
+        # NOTE: The buffered look-ahead data is discarded as well; count it,
+        #   so that the position keeps pointing at the end of what was consumed.
+        self._pos += len(self._buffer)
         self._buffer = b''
 
         while self._bytes_remaining > 0:
@@ -250,6 +253,11 @@ class BoundedStream:
                 except KeyError:
                     # NOTE(kgriffs): The ASGI spec states that 'body' is optional.
                     num_bytes = 0
+
+                # NOTE: Do not count more data than we are expecting, in
+                #   line with the truncation performed when reading.
+                if num_bytes > self._bytes_remaining:
+                    num_bytes = self._bytes_remaining
 
                 self._bytes_remaining -= num_bytes
                 self._pos += num_bytes
